@@ -104,15 +104,44 @@ func runPeerHolds(c scenario, scale int) *rp.Fail {
 	f := farm.New()
 	defer f.Close()
 	ip := [4]byte{127, 0, 8, 8}
-	e, err := f.TCP(ip, 0, farm.ScriptTCP(func(r farm.Received) []farm.Action {
-		return []farm.Action{{Data: reply(r.Data), Hold: T + 3*time.Second}}
-	}))
-	if err != nil {
-		return nil
+	protocol := "tcp"
+	var port uint16
+	held := 1 // descriptors of this process that belong to the controller's side of a connection that is still open
+	if c.Path != "" && c.Path != "tcp" {
+		// the controller is configured with another protocol string ("any", "", "UDP", "auto": everything but "tcp" is UDP): it
+		// answers over UDP at once, while its TCP port accepts connections and never answers - nobody has any business there
+		protocol, held = c.Path, 0
+		if protocol == "(empty)" {
+			protocol = ""
+		}
+		for try := 0; try < 20 && port == 0; try++ {
+			p, err := farm.FreePort(ip)
+			if err != nil {
+				return nil
+			}
+			if _, err := f.UDP(ip, p, farm.Script(func(r farm.Received) []farm.Action { return []farm.Action{{Data: reply(r.Data)}} })); err != nil {
+				continue
+			}
+			if _, err := f.TCP(ip, p, farm.ScriptTCP(func(r farm.Received) []farm.Action { return []farm.Action{{Hold: T + 3*time.Second}} })); err != nil {
+				return nil
+			}
+			port = p
+		}
+		if port == 0 {
+			return nil
+		}
+	} else {
+		e, err := f.TCP(ip, 0, farm.ScriptTCP(func(r farm.Received) []farm.Action {
+			return []farm.Action{{Data: reply(r.Data), Hold: T + 3*time.Second}}
+		}))
+		if err != nil {
+			return nil
+		}
+		port = e.Addr.Port()
 	}
 	serial := uint32(405419896)
 	cfg := hook.ClientCfg{TimeoutMs: int(T / time.Millisecond), BindIP: [4]byte{127, 0, 0, 1}, Debug: c.Debug,
-		Devices: []hook.DeviceCfg{{Serial: serial, HasAddr: true, IP: ip, Port: e.Addr.Port(), Protocol: "tcp"}}}
+		Devices: []hook.DeviceCfg{{Serial: serial, HasAddr: true, IP: ip, Port: port, Protocol: protocol}}}
 	if c.ReplyPct != 0 { // (used as the flag 'fixed bind port' here)
 		p, err := farm.FreePort(cfg.BindIP)
 		if err != nil {
@@ -137,15 +166,15 @@ func runPeerHolds(c scenario, scale int) *rp.Fail {
 	for deadline := time.Now().Add(1500 * time.Millisecond); ; time.Sleep(10 * time.Millisecond) {
 		s = farm.Sockets()
 		g, stacks = farm.LibraryGoroutines()
-		if (s <= socketsBefore+1 && g <= goroutinesBefore) || time.Now().After(deadline) {
+		if (s <= socketsBefore+held && g <= goroutinesBefore) || time.Now().After(deadline) {
 			break
 		}
 	}
 	if g > goroutinesBefore {
-		return rp.Failf("resources/goroutine-leak", "1.5 s after %s returned (TCP, fixed bind port: %v, the controller still holds its side of the connection open) %d library goroutine(s) are running, %d before the call:\n%s", c.Op, cfg.BindPort != 0, g, goroutinesBefore, stacks)
+		return rp.Failf("resources/goroutine-leak", "1.5 s after %s returned (protocol %q, fixed bind port: %v, the controller's TCP side holds whatever connection it got) %d library goroutine(s) are running, %d before the call:\n%s", c.Op, protocol, cfg.BindPort != 0, g, goroutinesBefore, stacks)
 	}
-	if s > socketsBefore+1 {
-		return rp.Failf("resources/socket-leak", "1.5 s after %s returned (TCP, fixed bind port: %v, the controller still holds its side of the connection open) the process has %d socket descriptors; %d before the call plus the controller's side of the connection", c.Op, cfg.BindPort != 0, s, socketsBefore)
+	if s > socketsBefore+held {
+		return rp.Failf("resources/socket-leak", "1.5 s after %s returned (protocol %q, fixed bind port: %v, the controller's TCP side holds whatever connection it got) the process has %d socket descriptors; %d before the call plus %d for the controller's side of a connection", c.Op, protocol, cfg.BindPort != 0, s, socketsBefore, held)
 	}
 	return nil
 }
@@ -402,7 +431,8 @@ func sweepScenarios(yield func(scenario) bool) {
 	for i, path := range []string{"udp", "tcp", "broadcast"} {
 		cases = append(cases, scenario{Kind: "late-wrong-reply", Op: []string{"GetTime", "GetStatus", "OpenDoor"}[i], Path: path, TimeoutMs: 600, ReplyPct: 85, Debug: i == 2})
 	}
-	cases = append(cases, scenario{Kind: "tcp-peer-holds-connection", Op: "GetTime", TimeoutMs: 4000, ReplyPct: 1}, scenario{Kind: "tcp-peer-holds-connection", Op: "OpenDoor", TimeoutMs: 4000, ReplyPct: 0, Debug: true})
+	cases = append(cases, scenario{Kind: "tcp-peer-holds-connection", Op: "GetTime", TimeoutMs: 4000, ReplyPct: 1}, scenario{Kind: "tcp-peer-holds-connection", Op: "OpenDoor", TimeoutMs: 4000, ReplyPct: 0, Debug: true},
+		scenario{Kind: "tcp-peer-holds-connection", Op: "DeleteCard", TimeoutMs: 4000, ReplyPct: 0, Path: "any"}, scenario{Kind: "tcp-peer-holds-connection", Op: "GetStatus", TimeoutMs: 4000, ReplyPct: 1, Path: "(empty)"})
 	if ev.Thorough() {
 		for i, path := range []string{"udp", "tcp", "broadcast"} {
 			cases = append(cases, scenario{Kind: "late-wrong-reply", Op: []string{"PutCard", "GetTime", "GetCardByID"}[i], Path: path, TimeoutMs: 1500, ReplyPct: 93})
